@@ -92,3 +92,71 @@ def selftest():
     assert eval_datetime("19980119T070000Z") == datetime(1998, 1, 19, 7, tzinfo=timezone.utc)
     assert matches(WEEKDAYNUM, "-1SU") and matches(WEEKDAYNUM, "MO") and not matches(WEEKDAYNUM, "1XX")
     assert matches(BINARY, "YWJj") and matches(BINARY, "YQ==") and not matches(BINARY, "YQ=")
+
+
+# ---------------------------------------------------------------- RECUR (3.3.10 + RFC 7529)
+_RANGES = {"BYSECOND": (0, 60, False), "BYMINUTE": (0, 59, False), "BYHOUR": (0, 23, False), "BYMONTHDAY": (1, 31, True),
+           "BYYEARDAY": (1, 366, True), "BYWEEKNO": (1, 53, True), "BYSETPOS": (1, 366, True)}
+
+
+def recur_problems(text):
+    """Problems of a RECUR value text; [] when it matches the grammar with [RSCALE;]FREQ first."""
+    out = []
+    parts = text.split(";")
+    names = []
+    for p in parts:
+        if p.count("=") != 1:
+            return [f"part {p!r} is not name=value"]
+        k, v = p.split("=")
+        names.append(k)
+        if k != k.upper():
+            out.append(f"part name {k!r} not upper case")
+        vals = v.split(",")
+        if v == "":
+            out.append(f"{k} has an empty value")
+        elif k == "FREQ":
+            if not matches(FREQ, v):
+                out.append(f"FREQ={v}")
+        elif k == "UNTIL":
+            if not (matches(DATE, v) or matches(DATETIME, v)):
+                out.append(f"UNTIL={v}")
+        elif k in ("COUNT", "INTERVAL"):
+            if not v.isdigit() or not v.isascii():
+                out.append(f"{k}={v}")
+        elif k in _RANGES:
+            lo, hi, signed = _RANGES[k]
+            for x in vals:
+                m = re.match(r"([+-]?)(\d+)\Z", x)
+                if not m or (m.group(1) and not signed) or not (lo <= int(m.group(2)) <= hi):
+                    out.append(f"{k} item {x!r}")
+        elif k in ("BYDAY",):
+            for x in vals:
+                m = WEEKDAYNUM.match(x)
+                if not m or (m.group(1) and not (1 <= abs(int(m.group(1))) <= 53)):
+                    out.append(f"BYDAY item {x!r}")
+        elif k == "BYMONTH":
+            for x in vals:
+                if not re.match(r"\d{1,2}L?\Z", x) or not (1 <= int(x.rstrip("L")) <= 13):
+                    out.append(f"BYMONTH item {x!r}")
+        elif k == "WKST":
+            if v not in ("SU", "MO", "TU", "WE", "TH", "FR", "SA"):
+                out.append(f"WKST={v}")
+        elif k == "SKIP":
+            if v not in ("OMIT", "BACKWARD", "FORWARD"):
+                out.append(f"SKIP={v}")
+        elif k == "RSCALE":
+            if not re.match(r"[A-Za-z0-9-]+\Z", v):
+                out.append(f"RSCALE={v}")
+        elif not k.startswith("X-"):
+            out.append(f"unknown part {k}")
+    if len(set(names)) != len(names):
+        out.append("a part occurs twice")
+    if "FREQ" not in names:
+        out.append("FREQ missing")
+    else:
+        first = names[0] if names[0] != "RSCALE" else (names[1] if len(names) > 1 else None)
+        if first != "FREQ":
+            out.append(f"FREQ is not first (order {names})")
+    if "COUNT" in names and "UNTIL" in names:
+        out.append("COUNT and UNTIL together")
+    return out
